@@ -484,6 +484,17 @@ pub fn seed_ops(name: &str) -> Vec<PuOp> {
                 o => o,
             })
             .collect(),
+        // a three-asset stableswap pool funded at the minimum-liquidity scale whose middle reserve was then emptied by two
+        // swaps under a belief price generous enough to pass the price protection (the first leaves the swap fee behind)
+        "S8" => {
+            let drain = |amt: u128| PuOp::Swap { u: B, pool: "o.ss".into(), offer: vec![("uusd".into(), amt)], ask: "uusdc".into(), slip: Some(5000), belief: Some((E18, 1)), recv: None };
+            vec![
+                mk_pool("ss", &["uusd", "uusdc", "ausdy"], &[6, 6, 18], std_fees(), Some(100)),
+                prov(OWNER, "o.ss", &[("uusd", 1000), ("uusdc", 1000), ("ausdy", 1_000_000_000_000_000)]),
+                drain(50 * E6),
+                drain(50 * E6),
+            ]
+        }
         "S6" => {
             // a four-asset stableswap pool next to a constant-product pool sharing two of its denoms
             let mut v = vec![mk_pool("cp", &["uom", "uusd"], &[6, 6], std_fees(), None), prov(OWNER, "o.cp", &[("uom", 10 * E6), ("uusd", 20 * E6)])];
@@ -628,6 +639,11 @@ pub fn enabled(w: &World, pre: &PuObs, alpha: Alpha) -> Vec<PuOp> {
                 // first deposits that must be refused: too small to leave the locked minimum, all assets but one
                 ops.push(PuOp::Provide { u: A, pool: id.into(), funds: assets.iter().map(|c| (c.denom.clone(), 10u128)).collect(), lock: None, lock_id: None, recv: None, liq_slip: None, swap_slip: None });
                 ops.push(PuOp::Provide { u: A, pool: id.into(), funds: assets.iter().skip(1).map(|c| (c.denom.clone(), 3_000_000u128)).collect(), lock: None, lock_id: None, recv: None, liq_slip: None, swap_slip: None });
+                // a pool with an emptied reserve (only swaps get it there): a deposit of 100 tokens of every asset it still holds
+                let held: Funds = assets.iter().filter(|c| !c.amount.is_zero()).map(|c| (c.denom.clone(), 100 * 10u128.pow(dec_of(&p.pool_info, &c.denom)))).collect();
+                if held.len() >= 2 && held.len() < n {
+                    ops.push(PuOp::Provide { u: A, pool: id.into(), funds: held, lock: None, lock_id: None, recv: None, liq_slip: None, swap_slip: None });
+                }
             }
         }
     }
